@@ -192,11 +192,10 @@ def lift (k : Client2) (r : Client × List COut) : Client2 × List COut := ({ k 
 def callback (k : Client2) (id : TID) (e : CEv) : Client2 × List COut × Bool :=
   let c := k.c
   let l1 := (k.lift (c.callback id e))
-  if c.closed then (k, [], false) else
   match c.lookup id with
   | none => (l1.1, l1.2, false)
   | some tx =>
-    if c.maxAttempts ≤ tx.attempt || e.isMsg then (l1.1, l1.2, false)
+    if c.closed || c.maxAttempts ≤ tx.attempt || e.isMsg then (l1.1, l1.2, false)
     else if k.blockAgentIds.contains id then
       let r := Client.retransmitPre (c.erase id) tx id
       ({ k with c := r.1, blockAgentIds := k.blockAgentIds.erase id, susp := k.susp ++ [r.2] }, [], true)
